@@ -452,7 +452,7 @@ class Interp(object):
         if t == 'fn':
             return a[1] in ('ent', 'dst2', 'dst3', 'dot', 'inv', 'tab', 'upd', 'toF', 'toR', 'iota',
                             'slice', 'col', 'col3', 'unflat', 'flat', 'uncol3', 'mesh0', 'mesh1',
-                            'farange', 'toF1', 'toR1', 'ident') or a[1].startswith('einsum:')
+                            'farange', 'toF1', 'toR1', 'ident', 'word') or a[1].startswith('einsum:')
         return False
 
     def slice_of(self, x, idx):
@@ -810,6 +810,8 @@ class Interp(object):
 
     def assign(self, t, v, env, st):
         if isinstance(t, ast.Name):
+            for c in self.loopctx:
+                c.setdefault('bound', set()).add(('name', t.id))
             env.set(t.id, v)
         elif isinstance(t, (ast.Tuple, ast.List)):
             items = self.unpack(v, len(t.elts), st)
@@ -841,6 +843,8 @@ class Interp(object):
                     return
             old = o.attrs.get(name)
             o.attrs[name] = v
+            for c in self.loopctx:
+                c.setdefault('bound', set()).add(('attr', o.oid, name))
             if o.origin is not None:
                 self.event('bind', '%s.%s' % (o.origin, name), node, new=(name not in o.attrs or old is None),
                            existed=old is not None)
@@ -855,11 +859,11 @@ class Interp(object):
             cur = env.get(t.id)
             if cur is None:
                 raise Raised('NameError', t.id)
-            env.set(t.id, self.inplace(op, cur, rhs, st))
+            env.set(t.id, self.inplace(op, cur, rhs, st, key=('name', t.id)))
         elif isinstance(t, ast.Attribute):
             o = self.eval(t.value, env)
             cur = self.get_attr(o, t.attr, st)
-            new = self.inplace(op, cur, rhs, st)
+            new = self.inplace(op, cur, rhs, st, key=('attr', getattr(o, 'oid', None), t.attr))
             if new is not cur:
                 self.set_attr(o, t.attr, new, st)
         elif isinstance(t, ast.Subscript):
@@ -878,7 +882,7 @@ class Interp(object):
              'MatMult': '__matmul__', 'Pow': '__pow__'}
     _ROPS = {'Add': '__radd__', 'Sub': '__rsub__', 'Mult': '__rmul__', 'Div': '__rtruediv__'}
 
-    def inplace(self, op, cur, rhs, node):
+    def inplace(self, op, cur, rhs, node, key=None):
         """value to rebind the target to; in-place effects applied to heap cells"""
         if isinstance(cur, Obj):
             mname = self._IOPS.get(op)
@@ -900,7 +904,11 @@ class Interp(object):
             raise Unsupported('in-place op on a masked copy', node)
         if isinstance(cur, Num) and self.loopctx and op in ('Add', 'Sub') and self.is_numeric(rhs):
             # scalar accumulation inside a loop over type labels: a sum over the loop's labels
-            labels = [l for l in self.loopctx[-1].get('labels', ()) if self.canon_label(l) == l]
+            labels = []
+            for c in reversed(self.loopctx):
+                if key is None or key in c.get('bound', ()):
+                    break       # the accumulator is (re)defined inside this loop: not carried across it
+                labels = [l for l in c.get('labels', ()) if self.canon_label(l) == l] + labels
             if labels:
                 t, _ = self.term_of(rhs, node)
                 if P.is_pw(t):
